@@ -36,8 +36,10 @@ enum Src {
 struct RefChan {
     queue: VecDeque<u32>,
     version: u64,
-    /// wakers of the pending receivers (sub-executors inside a task re-poll only woken children)
-    wakers: Vec<Waker>,
+    /// the pending receivers and the waker of their latest poll, kept exactly like the real channel
+    /// keeps them (same order, replaced on re-poll, removed with the future): inside a sub-executor
+    /// the order of wake-ups decides which of two competing branches of one task receives a value
+    waiters: Vec<(usize, Waker)>,
 }
 
 pub struct Cell {
@@ -389,19 +391,34 @@ impl Future for RefRecv {
     type Output = u32;
     fn poll(self: Pin<&mut Self>, cx: &mut Context<'_>) -> Poll<u32> {
         let mut w = self.w.lock().unwrap();
-        let c = self.c;
-        if let Some(v) = w.chans[c].queue.pop_front() {
-            return Poll::Ready(v);
-        }
-        let ver = w.chans[c].version;
-        w.cur_wait.push(Src::Recv(self.id, ver));
-        w.chans[c].wakers.push(cx.waker().clone());
-        Poll::Pending
+        let (c, id) = (self.c, self.id);
+        let mut stale = vec![];
+        let (gone, kept): (Vec<_>, Vec<_>) = std::mem::take(&mut w.chans[c].waiters).into_iter().partition(|(i, _)| *i == id);
+        w.chans[c].waiters = kept;
+        stale.extend(gone);
+        let r = if let Some(v) = w.chans[c].queue.pop_front() {
+            Poll::Ready(v)
+        } else {
+            let ver = w.chans[c].version;
+            w.cur_wait.push(Src::Recv(id, ver));
+            w.chans[c].waiters.push((id, cx.waker().clone()));
+            Poll::Pending
+        };
+        drop(w);
+        drop(stale);
+        r
     }
 }
 impl Drop for RefRecv {
     fn drop(&mut self) {
-        self.w.lock().unwrap().recvs[self.id].1 = true;
+        let gone: Vec<_> = {
+            let mut w = self.w.lock().unwrap();
+            w.recvs[self.id].1 = true;
+            let (gone, kept) = std::mem::take(&mut w.chans[self.c].waiters).into_iter().partition(|(i, _)| *i == self.id);
+            w.chans[self.c].waiters = kept;
+            gone
+        };
+        drop(gone);
     }
 }
 
@@ -489,9 +506,9 @@ impl Rt for RefRt {
             let ch = &mut w.chans[c];
             ch.queue.push_back(v);
             ch.version += 1;
-            std::mem::take(&mut ch.wakers)
+            std::mem::take(&mut ch.waiters)
         };
-        for wk in wakers {
+        for (_, wk) in wakers {
             wk.wake();
         }
     }
